@@ -7,7 +7,7 @@
 use std::cell::RefCell;
 use std::collections::{BTreeMap, BTreeSet, HashSet};
 use std::hash::{Hash, Hasher};
-use std::path::{Path, PathBuf};
+use std::path::PathBuf;
 use std::sync::atomic::{AtomicBool, AtomicU64, Ordering};
 use std::sync::{Arc, Mutex};
 use std::time::Instant;
@@ -338,6 +338,13 @@ struct CtxInner {
     extra: BTreeMap<String, J>,
     exhaustive: Option<bool>,
     inconclusive: Option<String>,
+    survey: BTreeMap<String, (u64, String)>,
+}
+
+/// VERIF_SURVEY=1: development aid — do not stop or shrink at unknown failures, list every
+/// distinct signature with a count and one example, exit 3. Never used by registered commands.
+pub fn survey_mode() -> bool {
+    std::env::var("VERIF_SURVEY").map(|v| v == "1").unwrap_or(false)
 }
 
 impl Ctx {
@@ -546,6 +553,13 @@ impl Ctx {
             nontrivial,
             self.elapsed_s()
         );
+        if !g.survey.is_empty() {
+            println!("SURVEY: {} distinct unknown signatures", g.survey.len());
+            for (sig, (n, d)) in &g.survey {
+                println!("--- {} x{}\n{}", sig, n, d.chars().take(1500).collect::<String>());
+            }
+            return 3;
+        }
         if !g.violations.is_empty() {
             for v in &g.violations {
                 println!("  sig: {}", v.sig);
@@ -575,6 +589,10 @@ pub trait Check: Sync {
     /// Run one case against the real code and its oracle. Must not panic for *harness*
     /// reasons; panics from the code under test are caught by the driver.
     fn run(&self, case: &Self::Case) -> Outcome;
+    /// Strict variant used for witness replay and `--replay`: every generator gate open.
+    fn run_strict(&self, case: &Self::Case) -> Outcome {
+        self.run(case)
+    }
     /// Should a panic escaping from the code under test count as a violation of this
     /// property? (true for almost all: "returns what the model returns" excludes crashing.)
     fn panic_is_failure(&self) -> bool {
@@ -583,7 +601,11 @@ pub trait Check: Sync {
 }
 
 fn run_guarded<C: Check>(check: &C, case: &C::Case) -> Outcome {
-    match catch(|| check.run(case)) {
+    run_guarded_mode(check, case, false)
+}
+
+fn run_guarded_mode<C: Check>(check: &C, case: &C::Case, strict: bool) -> Outcome {
+    match catch(|| if strict { check.run_strict(case) } else { check.run(case) }) {
         Ok(o) => o,
         Err(p) => {
             if check.panic_is_failure() {
@@ -656,12 +678,19 @@ where
                 ctx.record_failure(&f, &J::Null);
                 continue;
             }
+            if survey_mode() {
+                let mut g = ctx.inner.lock().unwrap();
+                let e = g.survey.entry(f.sig.clone()).or_insert((0, f.detail.clone()));
+                e.0 += 1;
+                continue;
+            }
             // unknown signature: shrink, keeping "fails with an unknown signature"
+            let shrink_start = Instant::now();
             let mut best_case = case.clone();
             let mut best_fail = f;
             let mut steps = 0u32;
             loop {
-                if steps > 4000 {
+                if steps > 1500 || shrink_start.elapsed().as_secs() > 40 {
                     break;
                 }
                 if !tree.simplify() {
@@ -678,7 +707,7 @@ where
                         break; // try simplifying further
                     } else {
                         steps += 1;
-                        if steps > 4000 || !tree.complicate() {
+                        if steps > 1500 || shrink_start.elapsed().as_secs() > 40 || !tree.complicate() {
                             break;
                         }
                     }
@@ -712,7 +741,7 @@ pub fn replay_witnesses<C: Check>(ctx: &Arc<Ctx>, check: &C) {
             ctx.note(format!("witness {} does not decode as a case of this check", w));
             continue;
         };
-        let out = run_guarded(check, &case);
+        let out = run_guarded_mode(check, &case, true);
         ctx.count_eval(1);
         ctx.class("witness_replay", 1);
         match out.failure {
@@ -767,7 +796,7 @@ pub fn replay_file<C: Check>(prop: &str, check: &C, path: &str) -> i32 {
             return 2;
         }
     };
-    let out = run_guarded(check, &case);
+    let out = run_guarded_mode(check, &case, true);
     match out.failure {
         Some(f) => {
             println!("  sig: {}", f.sig);
